@@ -43,13 +43,16 @@ def cfg_flags(cfg, prefix="-"):
     return out
 
 
-def run_vh(ctx, programs, cfg=None, sequential=False, sanity=True, dump=False, timeout=600, jobs=None):
+def run_vh(ctx, programs, cfg=None, sequential=False, sanity=True, dump=False, timeout=600, jobs=None, trace=None, exe=None,
+           stderr_to=None):
     """Analyse programs in one harness process (one configuration). Returns {id: result}."""
     if not programs:
         return {}
     work = os.path.join(ctx.scratch, "vhrun")
     os.makedirs(work, exist_ok=True)
-    cmd = [ctx.vh(), "run", "-dir", work] + cfg_flags(cfg)
+    cmd = [exe or ctx.vh(), "run", "-dir", work] + cfg_flags(cfg)
+    if trace:
+        cmd += ["-trace", trace]
     if sequential:
         cmd.append("-sequential")
     if not sanity:
@@ -58,12 +61,16 @@ def run_vh(ctx, programs, cfg=None, sequential=False, sanity=True, dump=False, t
         cmd.append("-dump")
     if jobs:
         cmd += ["-j", str(jobs)]
-    data = "\n".join(json.dumps(p) for p in programs) + "\n"
+    # every program gets its own module path (m -> m<k>): state that the code under test keeps per package path
+    # for the lifetime of the process cannot leak from one program of the batch into another
+    data = "\n".join(json.dumps(_relocate(p, "m%d" % k)) for k, p in enumerate(programs)) + "\n"
     try:
         r = subprocess.run(cmd, input=data, stdout=subprocess.PIPE, stderr=subprocess.PIPE, text=True,
                            timeout=timeout, env=vlib.go_env())
     except subprocess.TimeoutExpired:
         raise vlib.ToolError("vh run timed out after %ds on %d programs" % (timeout, len(programs)))
+    if stderr_to is not None:
+        stderr_to.append(r.stderr)
     out = {}
     for line in r.stdout.splitlines():
         if not line.strip():
@@ -72,6 +79,7 @@ def run_vh(ctx, programs, cfg=None, sequential=False, sanity=True, dump=False, t
         res["diags"] = res.get("diags") or []
         for d in res["diags"]:
             d["code"] = code_of(d["msg"])
+            d["pkg"] = re.sub(r"^m\d+/", "m/", d["pkg"])
         out[res["id"]] = res
     if r.returncode != 0 or len(out) != len(programs):
         # the process died (a crash outside an analyzer's Run, e.g. a fatal error): find the culprit one by one
@@ -83,7 +91,26 @@ def run_vh(ctx, programs, cfg=None, sequential=False, sanity=True, dump=False, t
         if len(missing) > 200:
             raise vlib.ToolError("vh run failed on %d of %d programs: %s" % (len(missing), len(programs), r.stderr[-1500:]))
         for p in missing:
-            out.update(run_vh(ctx, [p], cfg, sequential, sanity, dump, timeout, jobs))
+            out.update(run_vh(ctx, [p], cfg, sequential, sanity, dump, timeout, jobs, exe=exe))
+    return out
+
+
+def _relocate(program, modpath):
+    out = dict(program)
+    out["pkgs"] = []
+    for pk in program["pkgs"]:
+        files = []
+        for f in pk["files"]:
+            src = f["src"].replace('"m/', '"%s/' % modpath)
+            if "@packageonly" in src:
+                src = "\n".join(re.sub(r"(?<![\w/])m/", modpath + "/", l) if l.lstrip().startswith("// @packageonly") else l
+                                for l in src.split("\n"))
+            files.append({"name": f["name"], "src": src})
+        out["pkgs"].append({"path": modpath + pk["path"][1:], "name": pk["name"], "files": files})
+    if program.get("named"):
+        out["named"] = [modpath + n[1:] for n in program["named"]]
+    if program.get("schedule"):
+        out["schedule"] = [t.replace("@m/", "@%s/" % modpath) for t in program["schedule"]]
     return out
 
 
@@ -205,7 +232,7 @@ def run_binary(ctx, program, cfg=None, named=None, env_cfg=None, text=False, tim
     return res
 
 
-def run_vet(ctx, program, cfg=None, named=None, env_cfg=None, timeout=300, keep=False, binary=None):
+def run_vet(ctx, program, cfg=None, named=None, env_cfg=None, timeout=300, keep=False, binary=None, extra_env=None):
     """go vet -vettool=<binary> -json: the unitchecker driver (facts through vetx files).
     The module path embeds a hash of (program, configuration): go vet caches vetx files keyed on
     inputs that do not include GOGREEMENT_* or the tool's flags semantics."""
@@ -216,6 +243,8 @@ def run_vet(ctx, program, cfg=None, named=None, env_cfg=None, timeout=300, keep=
     exe = binary or ctx.binary("gogreement")
     cmd = ["go", "vet", "-vettool=" + exe, "-json"] + cfg_flags(cfg, "-config.") + _patterns(program, named)
     env = vlib.go_env(env_cfg)
+    if extra_env:
+        env.update({k: v.replace("m/", modpath + "/") if k == "VERIF_TRACE_PREFIX" else v for k, v in extra_env.items()})
     try:
         r = subprocess.run(cmd, cwd=root, env=env, stdout=subprocess.PIPE, stderr=subprocess.PIPE, text=True, timeout=timeout)
         rc, so, se, fail = r.returncode, r.stdout, r.stderr, None
